@@ -84,7 +84,8 @@ def run_cases(ck, res, n_cases, n_interval):
             if len(goals) < n_interval:
                 i = len(rs) - 1
                 venv = {'r': rs[i], 'theta': ths[i], 'phi': phs[i]}
-                goals.append(enga.interval_goal(f'{kind}#{ci}', term, venv, pv, {'N': net_p, 'f': f_p, 'g': g_p}, u[i], scale))
+                goals.append(enga.interval_goal(f'{kind}#{ci}', term, venv, pv, {'N': net_p, 'f': f_p, 'g': g_p}, u[i], scale,
+                                                gen=('Gen_C11', kind, 'term'), names=res[kind]['names']))
         else:
             W = r.choice([1, 2, 3, 5, 9, 25])
             cols = [Probe(1, r, nterms=2, kinds=nk) for _ in range(W)]
